@@ -30,6 +30,9 @@ HARNESSES = [
     ("exporter", ".", "^TestVerifC10ExporterUnit$", "state.go ExportKeyingMaterial"),
     ("exporter-e2e", ".", "^TestVerifC10ExporterE2E$", "state.go ExportKeyingMaterial"),
     ("prf", "./pkg/crypto/prf", "^TestVerifC10Prf$", "pkg/crypto/prf/prf.go"),
+    # RFC 4279 premaster secret for keys of 0 .. 2^16+4 bytes (65532..65535 used to panic / wrap), compared
+    # through a projection (function code 19) because such a key cannot be written out in a case file
+    ("premaster-long", "./pkg/crypto/prf", "^TestVerifC10PremasterLongPSK$", "pkg/crypto/prf/prf.go PSKPreMasterSecret"),
     ("ccm", "./pkg/crypto/ciphersuite", "^TestVerifC10CCMMode$", "pkg/crypto/ccm/ccm.go"),
     ("suites12", "./internal/ciphersuite", "^TestVerifC10Suites12$", "internal/ciphersuite Init/Encrypt"),
     ("keyschedule", "./pkg/crypto/keyschedule", "^TestVerifC10KeySchedule$", "pkg/crypto/keyschedule/keyschedule.go"),
@@ -41,6 +44,8 @@ HARNESSES = [
     # from the logged master secret; verify_data / CertificateVerify input / extended master secret are
     # recomputed by the model (Crypto/C10Transcript.v) over that wire-order transcript
     ("handshake12", ".", "^TestVerifC10Handshake12$", SITE_HS),
+    # DTLS 1.3: SignatureScheme of CertificateVerify for P-256 / P-384 keys, key log lines of both sides
+    ("handshake13", ".", "^TestVerifC10Handshake13$", SITE_HS),
     ("record13", "./internal/ciphersuite", "^TestVerifC10Record13$", "internal/ciphersuite/tls_13_record_protection.go"),
     # receive direction: records a conforming peer may send (explicit nonce != epoch||seq, extra padding, ...)
     ("receive12", "./internal/ciphersuite", "^TestVerifC10Receive12$", SITE_RX),
@@ -107,7 +112,7 @@ def nontrivial(c):
 
 def key_of(c):
     if c.get("hs"):
-        return (c["fn"], c["hs"]["variant"], c["hs"].get("side", ""), c["hs"]["check"])
+        return (c["fn"], c["hs"]["variant"], c["hs"].get("side", ""), c["hs"]["check"], c["hs"].get("label", ""))
     if c.get("rx"):
         return (c["fn"], c["rx"]["suite"], c["rx"]["record"])
     return (c["fn"], c["h"], tuple(c["in"]), tuple(c["n"]))
@@ -151,6 +156,60 @@ HS_HOW = ("run a DTLS 1.2 handshake of the named variant (harness/overlay/root/z
           "keys derived from the CLIENT_RANDOM key-log line, and compare with the RFC formula over "
           "handshake_messages = the wire-order messages after the HelloVerifyRequest, each with a 12-byte "
           "single-fragment header (RFC 6347 4.2.1 / 4.2.6)")
+
+
+SITE_KEYLOG = "KeyLogWriter (internal/config HandshakeConfig.WriteKeyLog and its callers)"
+SITE_SKE = "pkg/protocol/handshake/message_server_key_exchange.go Marshal (PSK / ECDHE_PSK)"
+SITE_CV13 = "pkg/crypto/signaturehash SelectSignatureScheme13 (DTLS 1.3 CertificateVerify)"
+KEYLOG_MONITOR = "key log line not found under ClientHello.random"
+SKE_MONITOR = "ServerKeyExchange is not psk_identity_hint<0..2^16-1> || ServerECDHParams"
+CV13_MONITOR = "DTLS 1.3 CertificateVerify scheme does not name the curve of the signing key"
+
+
+def hs_wire_fact(c, model):
+    """live-handshake facts other than the transcript formulas (function codes 16, 18, 64):
+    (site, stable signature, description, extra replay fields) of a deviating case"""
+    hs = c["hs"]
+    if c["fn"] == 18:
+        if hs.get("version") == "DTLS 1.3":
+            sig = {"monitor": KEYLOG_MONITOR, "version": "DTLS 1.3"}
+        else:
+            sig = {"monitor": KEYLOG_MONITOR, "version": hs.get("version", "DTLS 1.2"), "side": hs.get("side"),
+                   "resumed": bool(hs.get("resumed"))}
+        wcr, lcr, lsec, sec = c["in"]
+        if not lcr:
+            why = "the log has no %s line at all" % hs.get("label")
+        elif lcr != wcr:
+            why = "its %s line is filed under %s" % (hs.get("label"), lcr)
+        else:
+            why = "the secret of its %s line is not the one the records are protected with" % hs.get("label")
+        what = ("%s: %s handshake %s (%s), %s key log: a passive decoder looks for `%s %s <secret>` "
+                "(ClientHello.random as sent on the wire) but %s" % (
+                    KEYLOG_MONITOR, hs.get("version"), hs["variant"], hs["suite"], hs.get("side"), hs.get("label"),
+                    wcr, why))
+        return SITE_KEYLOG, sig, what, {
+            "how": "run the handshake of the named variant with a KeyLogWriter on both sides; in = ClientHello.random "
+                   "from the wire, the random and secret columns of the best matching key log line (empty: no line "
+                   "with that label), the secret of the connection", "label": hs.get("label"),
+            "key_log": hs.get("key_log", ""), "wire_client_random": wcr}
+    if c["fn"] == 16:
+        sig = {"monitor": SKE_MONITOR, "key_exchange": hs.get("key_exchange"), "hint": hs.get("hint")}
+        what = ("%s: handshake %s (%s), server identity hint %s: the ServerKeyExchange body on the wire is %s, "
+                "RFC 4279 2 / RFC 5489 2 prescribe %s" % (
+                    SKE_MONITOR, hs["variant"], hs["suite"], hs.get("hint"), c["out"][0],
+                    (model[0] if isinstance(model, list) and model else model)))
+        return SITE_SKE, sig, what, {
+            "how": "DTLS 1.2 handshake with the named PSK suite; in = the server's configured psk_identity_hint "
+                   "(empty: none) and the ECDH point found at the end of the message, n = named curve; out = "
+                   "the ServerKeyExchange body captured from the wire"}
+    sig = {"monitor": CV13_MONITOR, "key": hs.get("key"), "scheme": hs.get("scheme")}
+    what = ("%s: handshake %s (%s): the server's CertificateVerify, made with a %s key, is sent and accepted under "
+            "SignatureScheme %s; RFC 8446 4.2.3 assigns that curve %s" % (
+                CV13_MONITOR, hs["variant"], hs["suite"], hs.get("key"), hs.get("scheme"),
+                ("0x" + model[0]) if isinstance(model, list) and model else model))
+    return SITE_CV13, sig, what, {
+        "how": "DTLS 1.3 handshake, server certificate with an ECDSA key on the named curve (n = its NamedGroup); out = "
+               "the SignatureScheme of the server's CertificateVerify as the client accepted it"}
 
 
 def signature_of(c):
@@ -287,6 +346,31 @@ def run(chk):
                                                    "Crypto/C10Transcript.v" % c["fn"],
                                  "rerun": "VERIF_SEED=%d bin/check C10 --tier %s" % (chk.seed, chk.tier)})
                     continue
+                if hs and c["fn"] in (16, 18, 64):
+                    mv = None
+                    if c["fn"] != 18:
+                        mv = model_value(c, "c10val_%s_%d" % (re.sub(r"[^a-z0-9]", "", leg), i))
+                    fsite, sig, what, extra = hs_wire_fact(c, mv)
+                    k = (fsite, str(sig))
+                    if k in reported:
+                        continue
+                    reported.add(k)
+                    found_input = True
+                    same = [(j, x) for j, (_, _, x) in enumerate(allc) if x.get("hs") and x["fn"] == c["fn"]]
+
+                    def lab(x):
+                        return "%s/%s%s" % (x["hs"]["variant"], x["hs"].get("side", ""),
+                                            ("/" + x["hs"]["label"]) if x["hs"].get("label") else "")
+                    extra.update({"variant": hs["variant"], "suite": hs["suite"], "side": hs.get("side"),
+                                  "wire_value": c["out"][0] if c["fn"] != 18 else None, "model_value": mv,
+                                  "failing": sorted(lab(x) for j, x in same if j in badset),
+                                  "passing": sorted(lab(x) for j, x in same if j not in badset),
+                                  "case": c,
+                                  "correspondence": "Crypto.C10Run.case_ok (function code %d), model "
+                                                    "Crypto/C10Transcript.v" % c["fn"],
+                                  "rerun": "VERIF_SEED=%d bin/check C10 --tier %s" % (chk.seed, chk.tier)})
+                    chk.finding(fsite, sig, what, extra)
+                    continue
                 sig = signature_of(c)
                 k = (c.get("site") or site, str(sig))
                 if k in reported:
@@ -295,8 +379,8 @@ def run(chk):
                 found_input = True
                 mv = model_value(c, "c10val_%s_%d" % (re.sub(r"[^a-z0-9]", "", leg), i))
                 chk.finding(c.get("site") or site, sig,
-                            "%s: Go output differs from the RFC formula (independent model Crypto/C10*.v)"
-                            % c.get("tag", c["fn"]),
+                            "%s: Go output differs from the RFC formula (independent model Crypto/C10*.v)%s"
+                            % (c.get("tag", c["fn"]), (" [" + c["note"] + "]") if c.get("note") else ""),
                             {"how": "call the Go function named in `function` with the hex inputs `in` and numeric "
                                     "inputs `n` (hash code h: 256=SHA-256, 384=SHA-384, 512=SHA-512, 1=SHA-1); "
                                     "`go_out` is what /repo returned, `model_out` is the RFC value",
@@ -334,7 +418,11 @@ def run(chk):
              "Leg handshake12: per live DTLS 1.2 handshake variant (certificate suites with / without client auth, "
              "PSK, ECDHE-PSK, EMS on/off, resumption, fragmentation, a lost flight, no HelloVerifyRequest) both "
              "Finished verify_data values read from the wire with key-log keys, the CertificateVerify signature and "
-             "the master secret are compared with the RFC formulas over the handshake messages in WIRE order. "
+             "the master secret are compared with the RFC formulas over the handshake messages in WIRE order; also the "
+             "key log line of BOTH sides under the wire ClientHello.random (fn 18) and the PSK / ECDHE_PSK "
+             "ServerKeyExchange encoding (fn 16). Leg handshake13: DTLS 1.3 CertificateVerify scheme versus the "
+             "curve of the key (fn 64) and the NSS key log labels of both sides (fn 18). Leg premaster-long: RFC 4279 "
+             "premaster secret for keys of 0..2^16+4 bytes through a projection (fn 19). "
              "Non-trivial = at least one non-empty output; distinct by (function, hash, inputs).",
         assumptions=["Go stdlib / x/crypto primitives (AES, GCM, ChaCha20-Poly1305, ECDH, ML-KEM) are outside /repo: "
                      "used as oracles for the primitive only; their inputs (key, nonce, AAD) are compared with the model",
